@@ -1125,7 +1125,7 @@ def execute_c08(scen):
         digest.update(repr((op, C.digest_obj(a))).encode())
     # ---- a search given exogenous data: the winner is refitted on the whole series WITH it
     if scen.get("exog_refit") and scen["base"]["kind"] == "naive" and isinstance(scen["grid"], dict) \
-            and not res.violations:
+            and not res.violations and scen["metric"] != "corr":   # (corr: scores may all be undefined)
         from sktime.forecasting.model_selection import ForecastingGridSearchCV
         b0 = C.build(scen["base"])
         Xall = pd.DataFrame({"x0": np.round(np.sin(np.arange(len(y_all)) / 2.0) + 3.0, 4)}, index=y_all.index)
